@@ -492,6 +492,21 @@ theorem toTree_build : âˆ€ (s : Spec) (t : Tree Value), Spec.toTree s = .ok t â†
     cases he : Spec.toElement (.runAdapter i) with
     | error e => simp [he] at h
     | ok el => simp [he] at h; subst h; simp [build]
+  | .runNamed i, t, h => by
+    simp only [Spec.toTree] at h
+    cases he : Spec.toElement (.runNamed i) with
+    | error e => simp [he] at h
+    | ok el => simp [he] at h; subst h; simp [build]
+  | .runNone f, t, h => by
+    simp only [Spec.toTree] at h
+    cases he : Spec.toElement (.runNone f) with
+    | error e => simp [he] at h
+    | ok el => simp [he] at h; subst h; simp [build]
+  | .runNoneBad, t, h => by
+    simp only [Spec.toTree] at h
+    cases he : Spec.toElement (.runNoneBad) with
+    | error e => simp [he] at h
+    | ok el => simp [he] at h; subst h; simp [build]
   | .syn r c f p n, t, h => by simp [Spec.toTree, Spec.toElement] at h; subst h; simp [build, Spec.toElement]
   | .junk, t, h => by simp [Spec.toTree, Spec.toElement] at h; subst h; simp [build, Spec.toElement]
   | .setContext, t, h => by simp [Spec.toTree, Spec.toElement] at h; subst h; simp [build, Spec.toElement]
@@ -598,6 +613,21 @@ theorem toTree_flatten : âˆ€ (s : Spec) (t : Tree Value), Spec.toTree s = .ok t 
   | .runAdapter i, t, h => by
     simp only [Spec.toTree] at h
     cases he : Spec.toElement (.runAdapter i) with
+    | error e => simp [he] at h
+    | ok el => simp [he] at h; subst h; simpa [Spec.flat, flatten] using toElements_singleton _ _ he
+  | .runNamed i, t, h => by
+    simp only [Spec.toTree] at h
+    cases he : Spec.toElement (.runNamed i) with
+    | error e => simp [he] at h
+    | ok el => simp [he] at h; subst h; simpa [Spec.flat, flatten] using toElements_singleton _ _ he
+  | .runNone f, t, h => by
+    simp only [Spec.toTree] at h
+    cases he : Spec.toElement (.runNone f) with
+    | error e => simp [he] at h
+    | ok el => simp [he] at h; subst h; simpa [Spec.flat, flatten] using toElements_singleton _ _ he
+  | .runNoneBad, t, h => by
+    simp only [Spec.toTree] at h
+    cases he : Spec.toElement (.runNoneBad) with
     | error e => simp [he] at h
     | ok el => simp [he] at h; subst h; simpa [Spec.flat, flatten] using toElements_singleton _ _ he
   | .syn r c f p n, t, h => by
